@@ -64,6 +64,9 @@ impl UrlPath {
 
             if _char == ']' && previous_char.is_some() && previous_char.unwrap() == ']' {
                 is_opened_token = false;
+                if _buffer.len() < 2 {
+                    return Err("at least one extra ] char".to_string());
+                }
                 let without_square_brackets = _buffer.len() - 2;
                 let key : String = _buffer[0..without_square_brackets].into_iter().collect();
                 let part = Part {
@@ -229,7 +232,11 @@ impl UrlPath {
                 let static_pattern = part.static_pattern.clone().unwrap();
                 // println!("static pattern {:?}", static_pattern);
                 // println!("path {:?}", path);
-                path = path.strip_prefix(static_pattern.as_str()).unwrap().to_string();
+                let boxed_rest_of_path = path.strip_prefix(static_pattern.as_str());
+                if boxed_rest_of_path.is_none() {
+                    return Err(format!("path does not match the pattern, expected {} at {}", static_pattern, path));
+                }
+                path = boxed_rest_of_path.unwrap().to_string();
             } else {
                 // continue, unless the part is last,
                 // if so read to the end of path and add to map
